@@ -2,12 +2,13 @@ import N0Verif.Proofs.XPathCreate
 import N0Verif.Proofs.XPathHistory
 import N0Verif.Proofs.XPathCreate2
 import N0Verif.Proofs.XPathPureApi
+import N0Verif.Proofs.XPathHidden
 /-!
 # C03 — assigning to a missing xpath creates exactly the missing chain; `new()` appends
 
 `setItem` is the model of `__setitem__` (with `_add`); it returns the tree after the call and
 whether the call raised — a refused creation takes back what `_add` had already inserted (fix C03-a).
-The model follows the code with the fix patches C03-a, C03-b, C03-c applied.
+The model follows the code with the fix patches C03-a, C03-b, C03-c, C04-a, C03-e applied.
 
 Reference semantics: `Val.setAt t p x` ("the original with exactly the slot `p` replaced/inserted"),
 `chain ns v` (nested dictionaries for a chain of names), `appendTo old x` (a list gets one more
@@ -398,6 +399,105 @@ theorem pk_k : PlainKey ['k'] := ⟨by simp, by decide, by simp⟩
 /-- a tree with a list `l`, a scalar `k` and an empty dict under `a` -/
 def exTree2 : Val :=
   .dict .n0 [(['a'], .dict .n0 [(['l'], .list .n0 [.int 1]), (['k'], .str ['s'])])]
+
+/-! ## 5b. an index step on a single value — the hidden list (fix C03-e)
+
+Lookup reads a value that is not a list as the list of this one item: `d['a[0]']`, `d['a[-1]']`, `d['a[last()]']` are
+`d['a']`.  The reading of C03 consistent with it: on the value of a key, `name[1]` **is** `name[len]` (the value is wrapped
+as the first element and exactly one element is appended), index `0` / `-1` is the value itself (C02: it is replaced),
+and every other index cannot be honoured: the assignment raises and the tree is unchanged.  `e : IdxSp` is any
+spelling of the index (`1`, `0+1`, `last()`, `-1`, `last()-3`, …). -/
+
+/-- **C03 (index on a single value).**  `old`, the value of `name` in the dict at `q`, is not a list.
+1. *replace*: `//…q…/name[e]` with `e` denoting `0` or `-1` stores `v` in the slot of `old`;
+2. *wrap and append*: `//…q…/name[e]/tail…` with `e` denoting `1` makes the slot `[old, chain tail v]` (`name[1]`:
+   `[old, v]`; `name[1]/y`: `[old, {y: v}]`);
+3. *refuse*: with `e` denoting anything else the call raises `SyntaxError` and the tree is the tree before the call. -/
+theorem C03_index_on_single_value (cls : Cls) (kvs : List (Str × Val)) (q : Pos) (kcls : Cls) (nkvs : List (Str × Val))
+    (name : Str) (old : Val) (e : IdxSp) (tail : List Str) (v : Val) (fuel : Nat)
+    (hp : PlainPos q) (hget : getAt (.dict cls kvs) q = some (.dict kcls nkvs)) (hn : PlainKey name)
+    (hl : lookup name nkvs = some old) (hs : isList old = false) (ht : ∀ x ∈ tail, PlainKey x)
+    (hf : fuel ≥ 2 * q.length + 2) :
+    ((e.val = 0 ∨ e.val = -1) → ∀ t', setAt (.dict cls kvs) (q ++ [.key name]) v = some t' →
+      setItem fuel (.dict cls kvs) (slash ++ renderPos q ++ slash ++ (name ++ bracket e.text)) v = (t', .ok ())) ∧
+    (e.val = 1 → ∀ t', setAt (.dict cls kvs) (q ++ [.key name]) (.list .n0 [old, chain tail v]) = some t' →
+      setItem fuel (.dict cls kvs)
+        (slash ++ renderPos q ++ slash ++ (name ++ bracket e.text) ++ renderPos (tail.map Seg.key)) v = (t', .ok ())) ∧
+    ((e.val ≥ 2 ∨ e.val < -1) →
+      setItem fuel (.dict cls kvs)
+        (slash ++ renderPos q ++ slash ++ (name ++ bracket e.text) ++ renderPos (tail.map Seg.key)) v
+        = (.dict cls kvs, .error .SyntaxError)) :=
+  ⟨fun he t' hset => setItem_hidden_replace cls kvs q kcls nkvs name old e v t' fuel hp hget hn hl hs he hset hf,
+   fun he t' hset => setItem_hidden_wrap cls kvs q kcls nkvs name old e tail v t' fuel hp hget hn hl hs he ht hset hf,
+   fun he => setItem_hidden_refuse cls kvs q kcls nkvs name old e tail v fuel hp hget hn hl hs he ht hf⟩
+
+/-- the reference trees of the first two cases always exist -/
+theorem C03_index_on_single_value_total (t : Val) (q : Pos) (kcls : Cls) (nkvs : List (Str × Val)) (name : Str) (x : Val)
+    (hget : getAt t q = some (.dict kcls nkvs)) : ∃ t', setAt t (q ++ [.key name]) x = some t' :=
+  C03_create_names_total t q kcls nkvs name x hget
+
+/-- the wrapped slot is `appendTo old …` of `C03_append_new`: `name[1]` on a single value does what `name[new()]` does -/
+theorem C03_index_one_is_new (old x : Val) (h : isList old = false) : appendTo old x = .list .n0 [old, x] :=
+  appendTo_nonlist h x
+
+/-- what `_find` itself reports for an index on a single value is unchanged (lookups are what they were): the parent is
+the temporary hidden list — a tuple in the implementation, so that nothing can be stored into it — and `__setitem__`
+(`hiddenPlace`) resolves the place of the value itself -/
+theorem C03_find_index_on_single_value (fuel : Nat) (root : Val) (entry rl : Bool) (P : Pos) (found : Str) (e : IdxSp)
+    (old : Val) (rest : List Str) (hP : getAt root P = some old) (hl : isList old = false) :
+    ((e.val = 0 ∨ e.val = -1) →
+      findD (fuel + 1) root [] false entry [bracket e.text] (.at P) rl found
+        = .ok (root, { parent := .wrap (.at P), nameIdx := some (bracket (intStr e.val)), value := old, found := found,
+                       notFound := Option.none })) ∧
+    ((e.val ≥ 1 ∨ e.val < -1) →
+      findD (fuel + 1) root [] false entry (bracket e.text :: rest) (.at P) rl found
+        = .ok (root, { parent := .wrap (.at P), nameIdx := some (bracket (intStr e.val)), value := Val.none, found := found,
+                       notFound := some (bracket e.text :: rest) })) :=
+  ⟨fun he => hidden_find_last fuel root entry rl P found _ _ _ old hP hl e.idxTok he,
+   fun he => hidden_find_miss fuel root entry rl P found _ _ _ old rest hP hl e.idxTok he⟩
+
+/-- the five lines of the finding (the former `C03_index_on_single_value_cex`), evaluated:
+`d['a[1]'] = 'V'` on `{a: 1}` wraps and appends and reads back, -/
+theorem C03_hidden_one_ok :
+    setItem 40 (.dict .n0 [(['a'], .int 1)]) ['a', '[', '1', ']'] (.str ['V'])
+      = (.dict .n0 [(['a'], .list .n0 [.int 1, .str ['V']])], .ok ()) ∧
+    (getItem 40 (.dict .n0 [(['a'], .list .n0 [.int 1, .str ['V']])]) ['a', '[', '1', ']']).2 = .ok (.str ['V']) := by
+  decide
+/-- `d['a[0][1]'] = 'V'` on `{a: [5]}` (a single value that is an element of a list: no key could hold the new list)
+is refused and changes nothing, -/
+theorem C03_hidden_one_in_list_refused :
+    setItem 40 (.dict .n0 [(['a'], .list .n0 [.int 5])]) ['a', '[', '0', ']', '[', '1', ']'] (.str ['V'])
+      = (.dict .n0 [(['a'], .list .n0 [.int 5])], .error .SyntaxError) := by
+  decide
+/-- `d['a[1]/y'] = 'V'` on `{a: {x: 1}}` appends `{y: 'V'}` next to the wrapped dict, -/
+theorem C03_hidden_one_tail_ok :
+    setItem 40 (.dict .n0 [(['a'], .dict .n0 [(['x'], .int 1)])]) ['a', '[', '1', ']', '/', 'y'] (.str ['V'])
+      = (.dict .n0 [(['a'], .list .n0 [.dict .n0 [(['x'], .int 1)], .dict .n0 [(['y'], .str ['V'])]])], .ok ()) := by
+  decide
+/-- `d['a[0]'] = 'V'` on `{a: 1}` replaces the value (C02), `d['a[2]'] = 'V'` is refused as before; the root and
+`a[0][1]` on `{a: 1}` (after which `a[0][1]` would not lead to the new element) are refused as well -/
+theorem C03_hidden_zero_two :
+    setItem 40 (.dict .n0 [(['a'], .int 1)]) ['a', '[', '0', ']'] (.str ['V']) = (.dict .n0 [(['a'], .str ['V'])], .ok ()) ∧
+    setItem 40 (.dict .n0 [(['a'], .int 1)]) ['a', '[', '2', ']'] (.str ['V'])
+      = (.dict .n0 [(['a'], .int 1)], .error .SyntaxError) ∧
+    setItem 40 (.dict .n0 [(['a'], .int 1)]) ['[', '1', ']'] (.str ['V']) = (.dict .n0 [(['a'], .int 1)], .error .SyntaxError) ∧
+    setItem 40 (.dict .n0 [(['a'], .int 1)]) ['[', '0', ']'] (.str ['V']) = (.dict .n0 [(['a'], .int 1)], .error .TypeError) ∧
+    setItem 40 (.dict .n0 [(['a'], .int 1)]) ['a', '[', '0', ']', '[', '1', ']'] (.str ['V'])
+      = (.dict .n0 [(['a'], .int 1)], .error .SyntaxError) := by
+  decide
+/-- the same three kinds through the theorem (`exTree2`: `k` is the single value `'s'` in the dict `a`) -/
+example : setItem 40 exTree2 ['/', '/', 'a', '/', 'k', '[', '1', ']', '/', 'x'] (.int 5)
+    = (.dict .n0 [(['a'], .dict .n0 [(['l'], .list .n0 [.int 1]),
+        (['k'], .list .n0 [.str ['s'], .dict .n0 [(['x'], .int 5)]])])], .ok ()) :=
+  (C03_index_on_single_value .n0 _ [.key ['a']] .n0 _ ['k'] (.str ['s']) (.lit 1) [['x']] (.int 5) 40 ⟨pk_a, trivial⟩ rfl pk_k
+    (by decide) rfl (by intro m hm; simp at hm; subst hm; exact pk_x) (by decide)).2.1 rfl _ (by decide)
+example : setItem 40 exTree2 ['/', '/', 'a', '/', 'k', '[', 'l', 'a', 's', 't', '(', ')', ']'] (.int 5)
+    = (.dict .n0 [(['a'], .dict .n0 [(['l'], .list .n0 [.int 1]), (['k'], .int 5)])], .ok ()) :=
+  (C03_index_on_single_value .n0 _ [.key ['a']] .n0 _ ['k'] (.str ['s']) .last [] (.int 5) 40 ⟨pk_a, trivial⟩ rfl pk_k
+    (by decide) rfl (by simp) (by decide)).1 (Or.inr rfl) _ (by decide)
+example : setItem 40 exTree2 ['/', '/', 'a', '/', 'k', '[', '-', '2', ']', '/', 'x'] (.int 5) = (exTree2, .error .SyntaxError) :=
+  (C03_index_on_single_value .n0 _ [.key ['a']] .n0 _ ['k'] (.str ['s']) (.neg 2) [['x']] (.int 5) 40 ⟨pk_a, trivial⟩ rfl pk_k
+    (by decide) rfl (by intro m hm; simp at hm; subst hm; exact pk_x) (by decide)).2.2 (Or.inr (by decide))
 
 /-- `d['//a/n/m'] = 5` through `C03_create_names` -/
 example : setItem 40 exTree2 ['/', '/', 'a', '/', 'n', '/', 'm'] (.int 5)
